@@ -34,6 +34,52 @@ pub open spec fn is_purge(m0: Map<u64, EntryG>, m1: Map<u64, EntryG>, idx: u64) 
     (forall|k: u64| m1.contains_key(k) <==> (m0.contains_key(k) && k > idx)) && (forall|k: u64| m1.contains_key(k) ==> m1[k] == m0[k])
 }
 
+// ---- removing a list of keys one by one (the loops of truncate / purge / replay), as lemmas proved in isolation
+pub open spec fn key_before(keys: Seq<u64>, n: int, k: u64) -> bool { exists|j: int| 0 <= j < n && keys[j] == k }
+pub open spec fn minus_keys(cur: Map<u64, EntryG>, pre: Map<u64, EntryG>, keys: Seq<u64>, n: int) -> bool {
+    (forall|k: u64| #![trigger cur.contains_key(k)] cur.contains_key(k) <==> (pre.contains_key(k) && !key_before(keys, n, k)))
+    && (forall|k: u64| #![trigger cur.contains_key(k)] cur.contains_key(k) ==> cur[k] == pre[k])
+}
+pub proof fn lemma_minus_start(pre: Map<u64, EntryG>, keys: Seq<u64>)
+    ensures minus_keys(pre, pre, keys, 0)
+{}
+pub proof fn lemma_minus_step(pre: Map<u64, EntryG>, m_in: Map<u64, EntryG>, keys: Seq<u64>, n: int)
+    requires minus_keys(m_in, pre, keys, n), 0 <= n < keys.len(),
+    ensures minus_keys(m_in.remove(keys[n]), pre, keys, n + 1),
+{
+    let key = keys[n];
+    let cur = m_in.remove(key);
+    assert forall|k: u64| #![trigger cur.contains_key(k)] cur.contains_key(k) <==> (pre.contains_key(k) && !key_before(keys, n + 1, k)) by {
+        if k == key { assert(keys[n] == k); assert(key_before(keys, n + 1, k)); }
+        else {
+            assert(cur.contains_key(k) == m_in.contains_key(k));
+            if key_before(keys, n + 1, k) { let j = choose|j: int| 0 <= j < n + 1 && keys[j] == k; assert(j != n); assert(key_before(keys, n, k)); }
+            if key_before(keys, n, k) { let j = choose|j: int| 0 <= j < n && keys[j] == k; assert(0 <= j < n + 1 && keys[j] == k); }
+        }
+    }
+    assert forall|k: u64| #![trigger cur.contains_key(k)] cur.contains_key(k) implies cur[k] == pre[k] by { assert(m_in.contains_key(k)); }
+}
+pub proof fn lemma_minus_done_from(pre: Map<u64, EntryG>, cur: Map<u64, EntryG>, keys: Seq<u64>, idx: u64)
+    requires minus_keys(cur, pre, keys, keys.len() as int), forall|k: u64| keys.contains(k) <==> (pre.contains_key(k) && k >= idx),
+    ensures is_truncation(pre, cur, idx),
+{
+    assert forall|k: u64| cur.contains_key(k) <==> (pre.contains_key(k) && k < idx) by {
+        assert(keys.contains(k) <==> (pre.contains_key(k) && k >= idx));
+        if key_before(keys, keys.len() as int, k) { let j = choose|j: int| 0 <= j < keys.len() && keys[j] == k; assert(keys.contains(k)); }
+        if keys.contains(k) { let j = choose|j: int| 0 <= j < keys.len() && keys[j] == k; assert(key_before(keys, keys.len() as int, k)); }
+    }
+}
+pub proof fn lemma_minus_done_upto(pre: Map<u64, EntryG>, cur: Map<u64, EntryG>, keys: Seq<u64>, idx: u64)
+    requires minus_keys(cur, pre, keys, keys.len() as int), forall|k: u64| keys.contains(k) <==> (pre.contains_key(k) && k <= idx),
+    ensures is_purge(pre, cur, idx),
+{
+    assert forall|k: u64| cur.contains_key(k) <==> (pre.contains_key(k) && k > idx) by {
+        assert(keys.contains(k) <==> (pre.contains_key(k) && k <= idx));
+        if key_before(keys, keys.len() as int, k) { let j = choose|j: int| 0 <= j < keys.len() && keys[j] == k; assert(keys.contains(k)); }
+        if keys.contains(k) { let j = choose|j: int| 0 <= j < keys.len() && keys[j] == k; assert(key_before(keys, keys.len() as int, k)); }
+    }
+}
+
 // ---- replay
 pub open spec fn st(i: MemLogStoreInner) -> St { St { log: i.log.m@, vote: i.vote, committed: i.committed, purged: i.last_purged_log_id } }
 /// the effect of ONE persisted record on the abstract state: the same relation the live operation that wrote it establishes
